@@ -2,7 +2,7 @@
    All py_* functions are REGENERATED from the Python sources on every run. *)
 From Coq Require Import List ZArith QArith Qabs Bool String Reals Qreals Qcanon.
 From BZ Require Import Base.PyVal Model.Hull Gen.PyFnHelpers Gen.PyFnGeometric Gen.PyFnTriangle
-  Theory.Predicates Theory.HullTheory Base.Ops Base.RInst Model.Curve Model.LinErr Gen.PyGeometricIntersection Theory.Hom Theory.LinError Theory.LinErrorQc
+  Theory.Predicates Theory.HullTheory Theory.HullLattice Base.Ops Base.RInst Model.Curve Model.LinErr Gen.PyGeometricIntersection Theory.Hom Theory.LinError Theory.LinErrorQc
   Gen.PyFnClipping Model.Clip Theory.ClipSpec Theory.ClipHull Theory.ClipSound Gen.F90Const Gen.F90Fn Theory.TwinsFn.
 Import ListNotations.
 Open Scope Q_scope.
@@ -85,6 +85,13 @@ Theorem C16_hull_is_the_convex_hull_on_small_lattices : forall pts,
   In pts (seqs_upto 5 (lattice 3)) \/ In pts (seqs_upto 4 (lattice 4)) -> hull_ok pts = true.
 Proof. exact hull_is_convex_hull_small. Qed.
 Print Assumptions C16_hull_is_the_convex_hull_on_small_lattices.
+(* ... and for EVERY finite sequence of points of the 4 x 4 lattice (any length, repetitions, order; the 3 x 3 lattice is a part
+   of it): the hull depends only on sort_unique of its input, which is one of the 2^16 subsequences of the sorted lattice
+   (closure under insert_u computed on 16 x 65536 cases), and hull_ok is computed on all of them *)
+Theorem C16_hull_is_the_convex_hull_for_every_sequence_on_the_4x4_lattice : forall s,
+  (forall p, In p s -> In p (lattice 4)) -> hull_ok s = true.
+Proof. exact hull_is_the_convex_hull_on_the_4x4_lattice. Qed.
+Print Assumptions C16_hull_is_the_convex_hull_for_every_sequence_on_the_4x4_lattice.
 
 (* separating-axis test never separates shapes that share a point: all polygons, all directions *)
 Theorem C16_separating_axis_sound : forall d p1 p2 ws1 ws2,
